@@ -751,4 +751,17 @@ theorem wrap_fitting_paragraphs (env : Env) (hsp : env.cw SP = 1) (hcw : ∀ c, 
     simp only [Option.map_some, Option.some.injEq]
     exact one_line_render env o p n frs c2 hl hnp c1
 
+/-- **a paragraph that fits comes back as one line, optimal-fit, any penalties with
+    `nline_penalty > 0` — no assumption about `smawk`**: both separators, both built-in
+    splitters, `break_words` on/off, safe lines (the complement is KF-1a/1b/2) -/
+-- @audit TW.C05.fits_one_line_optimal_own
+theorem fits_one_line_optimal_own (env : Env) (hsp : env.cw SP = 1) (o : Opts)
+    (hb : Builtin o.splitter) (p : Penalties) (halg : o.alg = .optimalFit p) (hP : 0 < p.nline)
+    (line : Text) (hsafe : SeqSafe o.splitter line) (nPrev : Nat) (frs : List Word)
+    (hpipe : pipeline env o line (o.width - displayWidth env.cw o.subsequentIndent) = some frs)
+    (hfit : displayWidth env.cw (indentOf o nPrev) + displayWidth env.cw line ≤ o.width) :
+    wrapSingleLineSlow env (ownMinima (α := Int) p) o line nPrev = some (specLines o [frs] 0 nPrev) :=
+  fits_one_line_optimal_safe env hsp _ o hb p halg hP line hsafe nPrev frs hpipe
+    (moConforms_own p frs (pipeline_noPen env o hb line _ frs hpipe) _ (by simp)) hfit
+
 end TW.C05
